@@ -678,6 +678,7 @@ func checkC11(c *Ctx, r *Report) {
 	} else {
 		whyOf := func(facts []condFact) string {
 			why := ""
+			typeEqConst, entryEqConst := false, false
 			for _, cf := range facts {
 				if !cf.True {
 					continue
@@ -690,12 +691,17 @@ func checkC11(c *Ctx, r *Report) {
 						why = "endpoint type auto"
 					} else if _, isP := bo.Y.(*ssa.Parameter); isP {
 						why = "type equals a supported entry"
-					} else if _, isP := bo.X.(*ssa.Parameter); isP && why == "" {
-						why = "type equals a constant under a supported-entry test"
-					} else if elemSource(bo.X) != nil && why == "" {
-						why = "a supported entry equals a compatibility class constant (type then matched against that class)"
+					} else if _, isP := bo.X.(*ssa.Parameter); isP {
+						typeEqConst = true
+					} else if elemSource(bo.X) != nil {
+						entryEqConst = true
 					}
 				}
+			}
+			// `entry == "openai-compatible" && type == "vllm"`: the type matched against a class a supported entry names.
+			// A bare `type == K` (K = "", or any other constant) is not a reason: it admits that type to every provider.
+			if why == "" && typeEqConst && entryEqConst {
+				why = "a supported entry names a compatibility class and the type equals a member of that class"
 			}
 			return why
 		}
